@@ -291,6 +291,9 @@ class Registry:
         for pred, factory in self.ctx_managers:
             if pred(mgr, st):
                 return factory(mgr)
+        from .sx import Unknown
+        if isinstance(mgr, Conc) and isinstance(mgr.v, Unknown) and not sx.spec_mode:
+            return UnknownCM(mgr.v)
         raise Unsupported("no context-manager contract for %r (%s)" % (mgr, ast.unparse(node)), node)
 
     def bound_at_module_level(self, sx, name):
@@ -655,6 +658,29 @@ class Registry:
                 v = st.getcell(v.cell)[a]
             if isinstance(v, Ref):
                 sx.havoc_cell(v.cell, st)
+
+
+class UnknownCM:
+    """`with <value without contract>:` -- entering and leaving may do anything; leaving may also swallow the body's exception"""
+
+    def __init__(self, u):
+        self.u = u
+
+    def enter(self, sx, st, node):
+        return self.u.__pyvc_call__(sx, [], {}, st, node)
+
+    def exit(self, sx, st, exc, node):
+        from .sx import Exc as _Exc
+        outs = []
+        for r in self.u.__pyvc_call__(sx, [], {}, st, node):
+            if r.exc is not None:
+                outs.append(r)
+            elif exc is not None:
+                outs.append(R(r.st, False))            # propagates
+                outs.append(R(r.st.fork(), True))      # ... or is suppressed
+            else:
+                outs.append(R(r.st, False))
+        return outs
 
 
 PURE_METHODS = {
